@@ -461,3 +461,61 @@ impl PD {
         if found.is_empty() { None } else { let k = pick % found.len(); Some(found.swap_remove(k)) }
     }
 }
+
+impl PD {
+    /// faces as cyclic lists of darts (crossing, position); the dart's edge is x[crossing][position]
+    pub fn faces(&self) -> Vec<Vec<(usize, usize)>> {
+        let ends = self.ends();
+        let n = self.n();
+        let mut seen = vec![[false; 4]; n];
+        let mut out = vec![];
+        for k in 0..n { for j in 0..4 {
+            if seen[k][j] { continue }
+            let mut f = vec![];
+            let (mut a, mut b) = (k, j);
+            while !seen[a][b] {
+                seen[a][b] = true;
+                f.push((a, b));
+                let (k2, j2) = Self::other_end(&ends, self.x[a][b], (a, b));
+                a = k2; b = (j2 + 1) % 4;
+            }
+            out.push(f);
+        } }
+        out
+    }
+
+    /// Reidemeister III on a triangular face (three distinct crossings, three distinct sides, the three
+    /// over/under relations transitive): every strand meets its two crossings in the opposite order
+    /// afterwards, every crossing keeps its local picture. Pure slot substitution; the result is
+    /// additionally required to be a valid planar diagram with equal components and equal bracket.
+    pub fn r3(&self, face: &[(usize, usize)]) -> Option<PD> {
+        if face.len() != 3 { return None }
+        let ends = self.ends();
+        let ks: BTreeSet<usize> = face.iter().map(|d| d.0).collect();
+        let es: BTreeSet<usize> = face.iter().map(|d| self.x[d.0][d.1]).collect();
+        if ks.len() != 3 || es.len() != 3 { return None }
+        // the three sides with both ends
+        let mut sides = vec![];
+        for &e in &es {
+            let v = &ends[&e];
+            if v.len() != 2 || v[0].0 == v[1].0 || !ks.contains(&v[0].0) || !ks.contains(&v[1].0) { return None }
+            sides.push((e, v[0], v[1]));
+        }
+        // over/under must be transitive: some strand (side) is over at both of its ends
+        let over = |(k, j): (usize, usize)| (j % 2 == 1) != self.neg[k];
+        let n_top = sides.iter().filter(|s| over(s.1) && over(s.2)).count();
+        let n_bot = sides.iter().filter(|s| !over(s.1) && !over(s.2)).count();
+        if n_top != 1 || n_bot != 1 { return None }
+        let mut p = self.clone();
+        for &(e, (ka, ja), (kb, jb)) in &sides {
+            let (oa, ob) = (self.x[ka][(ja + 2) % 4], self.x[kb][(jb + 2) % 4]);
+            if es.contains(&oa) || es.contains(&ob) { return None }
+            p.x[ka][(ja + 2) % 4] = e; p.x[ka][ja] = ob;
+            p.x[kb][(jb + 2) % 4] = e; p.x[kb][jb] = oa;
+        }
+        if p.validate().is_err() || p.n_free() != self.n_free() { return None }
+        if p.components().len() != self.components().len() { return None }
+        if self.n() <= 12 && p.jones().ok() != self.jones().ok() { return None }
+        Some(p)
+    }
+}
